@@ -301,7 +301,7 @@ theorem cast_lvPosO (o : TraceOpts) : ∀ (ts : Tys) (vs : Vals) (i : Nat) (cols
     simp [toTargets, lvOPos, Read.castTuple, hc, ih, normPos, dvalPos, Read.DVals.toList, Read.consClaim, Read.must]
 end
 
-/-! ### the former statements about `lv` (old exclusion `inScope`: no value of a string-stored enum at all), re-derived
+/-! ### the statements about `lv` (stronger exclusion `inScope`: no value of a string-stored enum at all), derived from `cast_lvO`
 
 Under `inScope` the two exclusions hold and `lvO o = lv` (`scope_of_inScope`, Lemmas/C04ScopeLv.lean). -/
 
